@@ -439,6 +439,16 @@ func (d *drv) call(c string, op map[string]any) {
 			}
 			return map[string]any{"unalloc": uj, "released": rj, "err": errClass(err)}
 		}
+	case "assignip":
+		// assignment of one named address (ipam.AssignIP)
+		host, h := tracelog.Str(op["host"]), tracelog.Str(op["h"])
+		ip := ipString(op["ip"])
+		ev["host"], ev["h"], ev["ip"] = host, h, op["ip"]
+		run = func() map[string]any {
+			err := cl.AssignIP(ctx, ipam.AssignIPArgs{IP: cnet.MustParseIP(ip), HandleID: &h, Hostname: host,
+				Attrs: map[string]string{"note": "verif"}})
+			return map[string]any{"err": errClass(err)}
+		}
 	case "relh":
 		h := tracelog.Str(op["h"])
 		ev["h"] = h
